@@ -116,7 +116,11 @@ def main():
             for l in open(os.path.join(corpus_dir, fn)):
                 l = l.strip()
                 if l and not l.startswith("#"):
-                    cases.append({"line": l, "meta": {"corpus": fn}})
+                    # `case => expected result` : minimised past failures with the required outcome
+                    exp = None
+                    if " => " in l:
+                        l, exp = l.split(" => ", 1)
+                    cases.append({"line": l.strip(), "meta": {"corpus": fn, "expect": exp and exp.strip()}})
     n_corpus = len(cases)
     cases += mod.generate(rng, tier)
     lines = [c["line"] for c in cases]
@@ -149,7 +153,10 @@ def main():
     # ---- 3 property oracles on the implementation ---------------------------------------
     oracle_fail = []
     for c, i in zip(cases, impl):
-        if "oracle" in c.get("meta", {}) and c["meta"]["oracle"] is False:
+        if "corpus" in c.get("meta", {}):
+            exp = c["meta"].get("expect")
+            if exp and i != exp:
+                oracle_fail.append({"line": c["line"], "impl": i, "required": f"corpus case {c['meta']['corpus']}: result must be `{exp}`"})
             continue
         try:
             why = mod.oracle(c, Result(i))
